@@ -1574,11 +1574,17 @@ PIP_Decision_Node::solve(const PIP_Problem& pip,
   if (check_feasible_context) {
     // Test all constraints for redundancy with the context, and eliminate
     // them if not necessary.
+    // NOTE: the constraints may refer to the artificial parameters of
+    // this node, which are in `all_params' but have no column in `context'.
+    Matrix<Row> ctx_base(context);
+    add_artificial_parameters(ctx_base, num_art_params);
+    add_artificial_parameter_definitions(ctx_base, all_params,
+                                         first_ap_dim, artificial_parameters);
     Constraint_System cs;
     swap(cs, constraints_);
     for (Constraint_System::const_iterator ci = cs.begin(),
            ci_end = cs.end(); ci != ci_end; ++ci) {
-      Matrix<Row> ctx_copy(context);
+      Matrix<Row> ctx_copy(ctx_base);
       merge_assign(ctx_copy, Constraint_System(*ci), all_params);
       Row& last = ctx_copy[ctx_copy.num_rows()-1];
       complement_assign(last, last, 1);
